@@ -5,6 +5,7 @@ open Pedal
 /- Line-protocol driver for C05 (same dispatch as C04): histories of sandbox executions through the model. -/
 def dispatch : List String → String
   | "hist" :: ts => SandboxExec.Wire.handleHist ts
+  | "nhist" :: ts => SandboxExec.Wire.handleNHist ts
   | _ => "bad-request"
 
 def main : IO Unit := driverMain dispatch
